@@ -2193,7 +2193,7 @@ ASSUMPTIONS = ['ordered_* forms: keys sorted ascending, uniqueness flags truthfu
                'fewer than 2^62 rows (INVALID_INDEX is not a row number); payload columns have the length of their key column']
 TECHNIQUE = ('Coq proof (faithful model of the kernels, Session plumbing and — reused from C03/C04 — the streamed generators '
              '= relational join + payload mapping) + exhaustive small-scope differential correspondence against the repository')
-LEVEL_TEXT = ('7 theorems in coq/Props/C19_flags.v about coq/Model/FlagForm.v (the type form of the uniqueness hints: a hint compared '
+LEVEL_TEXT = ('9 theorems in coq/Props/C19_flags.v about coq/Model/FlagForm.v (the type form of the uniqueness hints: a hint compared '
               'by value is its truth value in every form, so ordered_merge_left/right/inner with numpy-bool / integer hints ARE the '
               'calls with Python bools; the identity test `is False` is refuted — F-C19g, ordered_merge_inner as found); '
               '6 theorems in coq/Props/C19_typed.v about coq/Model/SessionMergeTyped.v (element types: every payload of a '
